@@ -338,7 +338,74 @@ def h_reload(e, ia, ib, mode, cfg, steps):
     e.claim("canary:reload", A["hits"] == -1)
 
 
-HARNESSES = {"step": h_step, "reset": h_reset, "prog": h_prog, "config": h_config, "reload": h_reload}
+def h_deep(e, repl, ib, bb, ways, ops):
+    """fetch / reset histories from a fresh instruction cache against the executable reference
+    cache of checks/cachestep.py: ops is a string over f (fetch at a symbolic address of the
+    current program) and R (reset of the cache system followed by writing a different program, as
+    a reload does).  Independent of the representation invariant and of any private state the
+    implementation keeps next to the blocks."""
+    from architecture_simulator.uarch.memory.instruction_memory import InstructionMemory
+    from architecture_simulator.uarch.memory.instruction_memory_cache_system import InstructionMemoryCacheSystem
+    from architecture_simulator.uarch.riscv.riscv_performance_metrics import RiscvPerformanceMetrics
+    from architecture_simulator.isa.riscv.rv32i_instructions import ADDI, ORI
+    from symx.containers import SymKeyDict, SymRange
+
+    g = Geo(ib, bb, ways)
+    nprog = (ways + 1) * g.sets * g.words  # one block more per set than fits
+    progs = [[ADDI(rd=1 + k % 31, rs1=0, imm=k) for k in range(nprog)], [ORI(rd=1 + k % 31, rs1=0, imm=100 + k) for k in range(nprog)]]
+    cur = 0
+    im = InstructionMemory()
+    im.write_instructions(progs[0])
+    pm = RiscvPerformanceMetrics()
+    penalty = e.int("penalty", 0, 1000)
+    cs = InstructionMemoryCacheSystem(instruction_memory=im, num_index_bits=g.ib, num_block_bits=g.bb, associativity=g.ways, performance_metrics=pm, miss_penality=penalty, replacement_strategy=repl)
+
+    def symbolise():
+        if e.mode == "sym":
+            low = cs.instruction_memory
+            low.instructions = SymKeyDict(list(low.instructions.items()))
+            low.address_range = SymRange(low.address_range.start, low.address_range.stop)
+
+    symbolise()
+    ref = cachestep.RefCache(g, repl, write_allocate=True)
+    for k, op in enumerate(ops):
+        if op == "R":
+            cs.reset()
+            cur = 1 - cur
+            cs.write_instructions(progs[cur])
+            symbolise()
+            ref = cachestep.RefCache(g, repl, write_allocate=True)
+            e.claim_eq("d%d-counters-zero-after-reset" % k, [cs.hits, cs.accesses], [0, 0])
+            continue
+        i = e.int("i%d" % k, 0, nprog - 1)
+        a = 4 * i
+        h0, a0, c0 = cs.hits, cs.accesses, pm.cycles
+        got = cs.read_instruction(a)
+        ic = e.concretize(i) if e.mode == "sym" else int(i)
+        blk = ic // g.words
+        hit, _ = ref.access(blk % g.sets, blk // g.sets, False)
+        e.observe("i%d" % k, ic)
+        e.observe("hit%d" % k, val(cs.hits) - val(h0))
+        e.claim("d%d-fetch-returns-the-current-program's-instruction" % k, got is progs[cur][ic], {"got": repr(got)})
+        e.claim_eq("d%d-accesses+1" % k, cs.accesses, a0 + 1)
+        e.claim_eq("d%d-hit-as-reference" % k, cs.hits, h0 + (1 if hit else 0))
+        e.claim("d%d-last-was-hit" % k, bool(cs.last_was_hit) == hit)
+        e.claim_eq("d%d-penalty-iff-miss" % k, pm.cycles, c0 if hit else c0 + penalty)
+    A = istate(cs, g)
+    for s_ in range(g.sets):
+        for w in range(g.ways):
+            tw = ref.tags[s_][w]
+            b = A[s_]["ways"][w]
+            if tw is None:
+                e.claim("final-way-empty-s%dw%d" % (s_, w), lnot(b["valid"]))
+            else:
+                e.claim("final-way-holds-reference-block-s%dw%d" % (s_, w), land(b["valid"], cond("==", b["tag"], tw)))
+        rs = cs.cache.sets[s_].replacement_strategy
+        e.claim("final-next-victim-s%d" % s_, cond("==", val(rs.get_next_to_replace()), ref.victim(s_)))
+    e.claim("canary:deep", cond("==", cs.accesses, -1))
+
+
+HARNESSES = {"step": h_step, "reset": h_reset, "prog": h_prog, "config": h_config, "reload": h_reload, "deep": h_deep}
 PCFG = [("lru", 0, 0, 1), ("lru", 1, 0, 2), ("plru", 0, 1, 2)]
 
 
@@ -355,6 +422,15 @@ def jobs(tier, seed):
             out.append({"label": "step-%s-i%db%dw%d" % (repl, ib, bb, ways), "harness": "step", "args": {"repl": repl, "ib": ib, "bb": bb, "ways": ways}, "cost": 10 * ways * (1 << ib), "validate_every": 3})
             out.append({"label": "reset-%s-i%db%dw%d" % (repl, ib, bb, ways), "harness": "reset", "args": {"repl": repl, "ib": ib, "bb": bb, "ways": ways}, "cost": 5, "validate_every": 5})
     out += cachestep.config_jobs("checks.c11")
+    deep_plan = [((0, 0, 2), ["fffff", "ffRff", "fRfRf"]), ((0, 1, 1), ["fRff", "ffff"]), ((1, 0, 2), ["fff"]), ((0, 1, 2), ["ffRf"])]
+    if tier != "quick":
+        deep_plan = [((0, 0, 2), ["ffffff", "ffRfff", "fRfRff", "fffRff"]), ((0, 1, 1), ["fRfff", "fffff"]), ((1, 0, 2), ["fffff", "ffRff"]), ((0, 1, 2), ["ffRff", "fffff"]), ((0, 0, 4), ["ffffff"])]
+    for (ib_, bb_, ways_), pats in deep_plan:
+        for repl in ("lru", "plru"):
+            if repl == "plru" and (ways_ & (ways_ - 1) or ways_ == 1):
+                continue
+            for pat in pats:
+                out.append({"label": "deep-%s-i%db%dw%d-%s" % (repl, ib_, bb_, ways_, pat), "harness": "deep", "args": {"repl": repl, "ib": ib_, "bb": bb_, "ways": ways_, "ops": pat}, "cost": 30 * len(pat), "validate_every": 5})
     n_ = 0
     for ia in range(len(RELOAD_PROGS)):
         for ib in range(len(RELOAD_PROGS)):
